@@ -49,13 +49,15 @@ def run(ck):
         for n in range(10 if quick else 150):
             closed = n % 3 != 2
             g = dbgen.DbGen(lay, rng, nasty=0.1, max_per_kind=rng.choice([2, 4, 6]), closed=closed)
-            db = g.generate()
+            db = dbgen.uniquify(g.generate())
             p = wd / ("r%d.in" % n)
             p.write_bytes(dbgen.enc_file(lay, db))
             total = sum(len(db[k]) for k in dbgen.KINDS)
             first = rng.choice([1, 1, 2, 50, 1000])
             idxs = list(range(first - 1, first + total + 2))
-            ops = ["reset", "reqfile %s" % p, "closed", "links", "next", "remap %d" % first, "closed", "consec %d" % first, "links", "next"]
+            ops = ["reset", "reqfile %s" % p, "closed", "links", "next", "remap %d" % first, "closed", "consec %d" % first, "links", "next",
+                   "reset", "reqfile %s" % p, "writehex 7 6c 68 6d", "remap %d" % first, "writehex 7 6c 68 6d",
+                   "reset", "reqfile %s" % p, "remap %d" % first]
             ops += dbgen.query_ops(lay, rng, idxs, [0, 1, 2], dbgen.all_names(db), budget=150 if quick else 600)
             ops += ["write 7 6c 68 6d"]
             impl, st, err_, model = run_both(ck, exe, ops)
@@ -67,10 +69,19 @@ def run(ck):
             ck.search_case("remap-keeps-closure")
             if st == "ok" and len(impl) == len(ops) and closed:
                 if impl[2] != "dangling=0 enum=0":
-                    continue  # generator artefact (should not happen for closed=True)
-                if impl[6] != "dangling=0 enum=0" or impl[7] != "1":
+                    ck.violation("load-breaks-closure", "a referentially closed database file has %s once loaded (loading re-numbers it with remap_indices)" % impl[2],
+                                 {"db.in": p.read_bytes(), "ops.txt": "\n".join(ops) + "\n"})
+                elif impl[6] != "dangling=0 enum=0" or impl[7] != "1":
                     ck.violation("remap-breaks-closure", "remap_indices(%d) on a closed database leaves %s, wrappers consecutive=%s" % (first, impl[6], impl[7]),
                                  {"db.in": p.read_bytes(), "ops.txt": "\n".join(ops) + "\n"})
+                if True:
+                    before, _ = dbgen.canon(lay, db)
+                    after, _ = dbgen.canon(lay, dbgen.dec_file(lay, bytes.fromhex(impl[14])))
+                    if before != after:
+                        dk = [k for k in before if before[k] != after.get(k)][:2]
+                        fields = [f for f in before[dk[0]] if before[dk[0]][f] != after.get(dk[0], {}).get(f)] if dk else []
+                        ck.violation("remap-not-iso", "remap_indices(%d) changed which entries are referenced: %r fields %s" % (first, dk, fields),
+                                     {"db.in": p.read_bytes(), "ops.txt": "\n".join(ops) + "\n"})
 
         # ---- databases interrogate produces ------------------------------------------------------
         n_hdr = 6 if quick else 120
@@ -146,18 +157,21 @@ def signature_check(ck, exe, wd, hp, oc, od):
     pos = 0
     ptypes = []
     for w, name, hasret, rty, npar in follow:
-        ret = bytes.fromhex(a3[pos]).decode() if a3[pos] != "-" else "void"
         pos += 1
         ps = [int(x) for x in a3[pos:pos + npar]]
         pos += npar
-        ptypes.append((name, ret if hasret == "1" else "void", ps))
-    alltypes = sorted(set(t for _, _, ps in ptypes for t in ps))
-    a4, st, _ = iglib.run_harness(exe, ["reset", "reqfile %s" % od] + ["q str type %d _true_name" % t for t in alltypes])
-    tn = dict(zip(alltypes, [bytes.fromhex(x).decode() if x != "-" else "?" for x in a4[2:]]))
+        ptypes.append((name, rty if hasret == "1" else None, ps))
+    alltypes = sorted(set(t for _, _, ps in ptypes for t in ps) | set(r for _, r, _ in ptypes if r is not None))
+    a4, st, _ = iglib.run_harness(exe, ["reset", "reqfile %s" % od] + ["q str type %d _true_name" % t for t in alltypes] +
+                                  ["q int type %d _atomic_token" % t for t in alltypes])
+    tn = dict(zip(alltypes, [bytes.fromhex(x).decode() if x != "-" else "?" for x in a4[2:2 + len(alltypes)]]))
+    for t, tok in zip(alltypes, a4[2 + len(alltypes):]):
+        if tok == "7":      # AT_string: the database's "atomic string" is passed to a C wrapper as char const *
+            tn[t] = "char const *"
     src = oc.read_text()
     redecl = '#include "%s"\n' % hp.name
     for name, ret, ps in ptypes:
-        redecl += 'extern "C" %s %s(%s);\n' % (ret, name, ", ".join(tn[t] for t in ps))
+        redecl += 'extern "C" %s %s(%s);\n' % ("void" if ret is None else tn[ret], name, ", ".join(tn[t] for t in ps))
         if not re.search(r"^%s\(" % re.escape(name), src, re.M):
             return ("missing", "wrapper %s is listed in the database but not defined in the generated code" % name, redecl)
     rp = wd / "redecl.cxx"
